@@ -13,6 +13,7 @@ import (
 	"io"
 	"io/fs"
 	"os"
+	"os/exec"
 	"sort"
 	"strings"
 	"time"
@@ -326,7 +327,9 @@ type desc struct {
 	Obs    []string `json:"observed"`
 }
 
-func runCase(w *gal.Writer, target int, gen string, ops []Op) {
+// observe runs one sequence on one real filesystem and returns the operations and
+// the observed results as Gallina terms.
+func observe(target int, gen string, ops []Op) (gops, obs []string) {
 	var wd world
 	var tmp string
 	switch target {
@@ -346,8 +349,8 @@ func runCase(w *gal.Writer, target int, gen string, ops []Op) {
 			panic("DirFS returned nil")
 		}
 	}
-	obs := make([]string, len(ops))
-	gops := make([]string, len(ops))
+	obs = make([]string, len(ops))
+	gops = make([]string, len(ops))
 	for i, o := range ops {
 		// a step that does not return (resolution of relative links is exponential
 		// in the number of linked components) must not hang the check
@@ -371,8 +374,16 @@ func runCase(w *gal.Writer, target int, gen string, ops []Op) {
 		_ = fsWalkChmod(tmp)
 		_ = os.RemoveAll(tmp)
 	}
-	term := fmt.Sprintf("{| c_target := %s; c_ops := %s; c_obs := %s |}", targetNames[target], gal.List(gops), gal.List(obs))
-	w.Add(gal.Case{Term: term, Class: targetNames[target] + "/" + gen, Trivial: len(ops) == 0,
+	return gops, obs
+}
+
+func caseTerm(target int, gops, obs []string) string {
+	return fmt.Sprintf("{| c_target := %s; c_ops := %s; c_obs := %s |}", targetNames[target], gal.List(gops), gal.List(obs))
+}
+
+func runCase(w *gal.Writer, target int, gen string, ops []Op) {
+	gops, obs := observe(target, gen, ops)
+	w.Add(gal.Case{Term: caseTerm(target, gops, obs), Class: targetNames[target] + "/" + gen, Trivial: len(ops) == 0,
 		Desc: desc{targetNames[target], gen, ops, obs}})
 }
 
@@ -768,12 +779,144 @@ func randomSeq(r *gal.Rand, tame, unclean bool) []Op {
 	return ops
 }
 
+// ---- shrinking a failing sequence -------------------------------------------------
+// `c17 -shrink <replay.json>`: the failing sequence of a replay file is cut down
+// on this side: first to its shortest failing prefix, then step by step (from
+// the end), keeping a step out whenever the SAME tag still comes out of the Coq
+// check (Corr/C17.v check_case, evaluated by coqc on the re-observed sequence).
+// The replay file gets the fields shrunk_ops / shrunk_observed / shrunk_tag.
+
+func knownTags(root string) map[string]bool {
+	m := map[string]bool{}
+	b, err := os.ReadFile(root + "/KNOWN_FINDINGS.txt")
+	if err != nil {
+		return m
+	}
+	for _, ln := range strings.Split(string(b), "\n") {
+		if !strings.Contains(ln, "property=C17") {
+			continue
+		}
+		for _, f := range strings.Fields(ln) {
+			if strings.HasPrefix(f, "tag=") {
+				m[strings.TrimPrefix(f, "tag=")] = true
+			}
+		}
+	}
+	return m
+}
+
+func hasTag(coqdir string, target int, ops []Op, tag string) bool {
+	gops, obs := observe(target, "shrink", ops)
+	dir, err := os.MkdirTemp("", "c17-shrink-")
+	if err != nil {
+		return false
+	}
+	defer os.RemoveAll(dir)
+	src := "From Apko Require Import Corr.C17.\nOpen Scope string_scope. Open Scope list_scope.\n" +
+		"Definition c : fs_case := " + caseTerm(target, gops, obs) + ".\n" +
+		"Eval vm_compute in (existsb (String.eqb " + gal.Str(tag) + ") (check_case c)).\n"
+	if err := os.WriteFile(dir+"/S.v", []byte(src), 0o644); err != nil {
+		return false
+	}
+	cmd := exec.Command("coqc", "-Q", coqdir, "Apko", dir+"/S.v")
+	cmd.Dir = dir
+	out, err := cmd.CombinedOutput()
+	return err == nil && strings.Contains(string(out), "= true")
+}
+
+func shrink(file, coqdir string) error {
+	raw, err := os.ReadFile(file)
+	if err != nil {
+		return err
+	}
+	var rp map[string]json.RawMessage
+	if err := json.Unmarshal(raw, &rp); err != nil {
+		return err
+	}
+	var in desc
+	if err := json.Unmarshal(rp["input"], &in); err != nil {
+		return err
+	}
+	var tags []string
+	_ = json.Unmarshal(rp["tags"], &tags)
+	target := -1
+	for i, n := range targetNames {
+		if n == in.Target {
+			target = i
+		}
+	}
+	if target < 0 || len(tags) == 0 || len(in.Ops) == 0 {
+		return fmt.Errorf("nothing to shrink")
+	}
+	// the tag to keep: a model/implementation mismatch first, else a violation that is not a listed finding
+	known := knownTags(coqdir + "/..")
+	tag := ""
+	for _, t := range tags {
+		if strings.HasPrefix(t, "mismatch:") {
+			tag = t
+			break
+		}
+	}
+	if tag == "" {
+		for _, t := range tags {
+			if !known[strings.TrimPrefix(t, "viol:")] {
+				tag = t
+				break
+			}
+		}
+	}
+	if tag == "" {
+		tag = tags[0]
+	}
+	ops := in.Ops
+	if !hasTag(coqdir, target, ops, tag) {
+		return fmt.Errorf("the sequence does not reproduce %s", tag)
+	}
+	// shortest failing prefix (a longer prefix keeps every tag of a shorter one)
+	lo, hi := 1, len(ops)
+	for lo < hi {
+		mid := (lo + hi) / 2
+		if hasTag(coqdir, target, ops[:mid], tag) {
+			hi = mid
+		} else {
+			lo = mid + 1
+		}
+	}
+	ops = append([]Op{}, ops[:hi]...)
+	// drop single steps, last one excepted, from the end to the beginning
+	for i := len(ops) - 2; i >= 0; i-- {
+		cand := append(append([]Op{}, ops[:i]...), ops[i+1:]...)
+		if hasTag(coqdir, target, cand, tag) {
+			ops = cand
+		}
+	}
+	_, obs := observe(target, "shrink", ops)
+	rp["shrunk_tag"], _ = json.Marshal(tag)
+	rp["shrunk_ops"], _ = json.Marshal(ops)
+	rp["shrunk_observed"], _ = json.Marshal(obs)
+	out, err := json.MarshalIndent(rp, "", " ")
+	if err != nil {
+		return err
+	}
+	fmt.Printf("SHRUNK %s: %d -> %d steps, tag %s\n", file, len(in.Ops), len(ops), tag)
+	return os.WriteFile(file, out, 0o644)
+}
+
 func main() {
 	out := flag.String("out", "", "cases directory")
 	seed := flag.Uint64("seed", 1, "seed")
 	tier := flag.String("tier", "quick", "tier")
 	_ = flag.String("replay", "", "unused: cases are regenerated from the seed")
+	shrinkFile := flag.String("shrink", "", "replay file whose failing sequence is to be cut down (no cases are generated)")
+	coqdir := flag.String("coq", "/verif/coq", "the compiled Coq tree (for -shrink)")
 	flag.Parse()
+	if *shrinkFile != "" {
+		if err := shrink(*shrinkFile, *coqdir); err != nil {
+			fmt.Fprintln(os.Stderr, "shrink:", err)
+			os.Exit(1)
+		}
+		return
+	}
 	w := &gal.Writer{Dir: *out, Require: "From Apko Require Import Corr.C17.", Type: "fs_case", Check: "check_case", Shard: 60}
 	for _, sc := range corpus() {
 		runCase(w, tMem, sc.name, sc.ops)
